@@ -99,6 +99,15 @@ class Registry:
     def contract(self, qual, **kw):
         self.contracts[qual] = Contract(qual, **kw)
 
+    def extend(self, qual, requires=(), ensures=(), loops=None):
+        """Add (tagged, labelled) clauses of another property to a contract / loop invariants registered earlier."""
+        c = self.contracts[qual]
+        c.requires = list(c.requires) + list(requires)
+        c.ensures = list(c.ensures) + list(ensures)
+        for loop, clauses in (loops or {}).items():
+            li = self.invariants[(qual, loop)]
+            li.inv = list(li.inv) + list(clauses)
+
     def invariant(self, qual, loop, sig, inv, **kw):
         self.invariants[(qual, loop)] = LoopInv(qual, loop, sig, inv, **kw)
 
@@ -136,10 +145,13 @@ class Registry:
         f = z3.Function(name, *(doms + [rk.sorts()[0]]))
         self.ufuncs[name] = (f, ks, rk)
 
-    def fold(self, name, over, term, params=(), ret='Real'):
-        """Fold of `term` over the values of a dict kind: name(d, *params) = sum_{k in d} term(d[k], *params).
-        The defining equations (empty, insert, overwrite, delete) are instantiated at every update."""
-        self.folds[name] = {'over': over, 'term': term, 'params': list(params), 'ret': ret}
+    def fold(self, name, over, term, params=(), ret='Real', keyed=False, nonneg=False):
+        """Fold of `term` over the values of a dict kind: name(d, *params) = sum_{k in d} term(d[k], *params)
+        (keyed: term(k, d[k], *params)).  The defining equations (empty, insert, overwrite, delete) are
+        instantiated at every update.  nonneg: every summand is >= 0, hence so is the sum (a lemma by induction
+        over the dict that the solver is given, not asked to prove)."""
+        self.folds[name] = {'over': over, 'term': term, 'params': list(params), 'ret': ret, 'keyed': keyed,
+                            'nonneg': nonneg}
 
     def site(self, caller, callee, asserts, ordinal=None):
         """Obligations over the caller's locals at its call(s) of `callee` (short name, e.g. 'post')."""
